@@ -36,6 +36,7 @@ type PSpec struct {
 	BusyMs  int      `json:"busyms"`
 	ResetOK bool     `json:"resetok"`
 	ErrKind int      `json:"errkind,omitempty"` // what "err" returns: 0 plain, 1 wraps context.Canceled, 2 wraps context.DeadlineExceeded
+	Track   bool     `json:"track,omitempty"`   // every wake-up is a tracked reconcile cycle (implies ResetOK: CleanupOutputs resets the backoff)
 }
 
 // QSpec is a queue probe with failure patterns.
@@ -82,7 +83,12 @@ func Gen(t *rapid.T) Plan {
 			// "interrupted" convention - the conformance QIntToStrSleepingController returns the error of a
 			// teardown-bound context - so only the deadline flavour is generated for them)
 			ErrKind: rapid.SampledFrom([]int{0, 0, 2}).Draw(t, "perrkind"),
+			Track:   rapid.IntRange(0, 2).Draw(t, "track") == 0,
 		})
+
+		if last := &p.Plains[len(p.Plains)-1]; last.Track {
+			last.ResetOK = true
+		}
 	}
 
 	nq := rapid.IntRange(0, 2).Draw(t, "nqueue")
@@ -238,7 +244,7 @@ func runBubble(p Plan) (v hk.Verdict) {
 			W: w, NameStr: name, Busy: time.Duration(ps.BusyMs) * time.Millisecond,
 			Ins:    []sim.InSpec{{NS: "n1", Typ: "TA", Kind: controller.InputWeak}},
 			Outs:   []sim.OutSpec{{Typ: "TC", Kind: controller.OutputShared}},
-			RunOut: sim.Outcomes(ps.RunOut), ResetBackoffOnOK: ps.ResetOK, ErrKind: ps.ErrKind,
+			RunOut: sim.Outcomes(ps.RunOut), ResetBackoffOnOK: ps.ResetOK, ErrKind: ps.ErrKind, TrackOutputs: ps.Track,
 			OnWake: func(ctx context.Context, r controller.Runtime, _ *sim.PlainProbe, n int) { wr(ctx, r, n) },
 		}
 		plains = append(plains, pp)
